@@ -84,7 +84,8 @@ API_SRCS = {
              '    @deco\n    async def m[S: int](self, p, /, q=1, *r, s, t=2, **u) -> None:\n        async with a as b, c: pass\n'
              '        async for i in j: await k\n        else: return\n        yield; yield from z\n'
              'def g(*, k): global G; nonlocal_ = lambda x, *y, z=1, **w: x\n'
-             'def h():\n    q = 1\n    def i(): nonlocal q\n'),
+             'def h():\n    q = 1\n    def i(): nonlocal q\n'
+             'def po(a, b, /): pass\nlam = lambda a, /: a\nclass E: pass\n'),
     'stmts': ('import a.b as c, d\nfrom . import (e as f, g)\nx = y = z\nx += 1\nx: int\ndel x, y[0]\nassert a, b\nraise E from F\n'
               'type X[T] = list[T]\nfor i in a:\n    break\nelse:\n    continue\nwhile a: pass\nelse: pass\n'
               'try:\n    pass\nexcept A as e:\n    pass\nexcept B: pass\nelse:\n    pass\nfinally:\n    pass\n'
@@ -222,7 +223,7 @@ MISSING = _coverage_note()
 
 CELLS = []
 for _kind in ('Call', 'ClassDef'):
-    for (_na, _ns, _nk) in ((0, 1, 1), (1, 1, 1), (0, 2, 1), (0, 1, 2), (1, 2, 2), (0, 2, 2), (1, 1, 2), (0, 3, 2), (0, 2, 3), (2, 2, 2)):
+    for (_na, _ns, _nk) in ((0, 1, 1), (1, 1, 1), (0, 2, 1), (0, 1, 2), (1, 2, 2), (0, 2, 2), (1, 1, 2), (0, 3, 1), (0, 1, 3), (0, 3, 2), (0, 2, 3), (2, 2, 2), (0, 3, 3), (0, 4, 1), (0, 1, 4)):
         _q = _na + _ns + _nk <= 4
         CELLS.append(Cell(f'T1.merge[{_kind},plain={_na},star={_ns},kw={_nk}]', _mk_merge(_kind, _na, _ns, _nk), 'T',
                           ['fst.astutil._syntax_ordered_children_Call', 'fst.astutil._syntax_ordered_children_ClassDef', 'fst.astutil.syntax_ordered_children'],
